@@ -1170,3 +1170,7 @@ m('D5-with-path-step-claims-a-custom-node', 'C03', 'D5', 'PyTreeSpec::FlattenInt
                                  handle,
                                  *leaf_predicate)) [[unlikely]] {
         py::tuple path{depth};""")
+m('P1-prefix-errors-reorders-only-larger-dicts', 'C07', 'P1', 'prefix_errors/dict-children-by-prefix-keys', 'optree/ops.py',
+  """            full_tree_children = [full_subtree[k] for k in prefix_tree_keys]  # type: ignore[misc]""",
+  """            if len(prefix_tree_keys) > 2:
+                full_tree_children = [full_subtree[k] for k in prefix_tree_keys]  # type: ignore[misc]""")
